@@ -21,6 +21,9 @@ Theorems
                                     (`info_nodup_needs_numbers`: two manifests `0001_a…`, `0001_b…` in one folder
                                     both load as generation 1); it is proved under the extra hypothesis
                                     `NumbersDistinct h`, together with strict ascent.
+  (after the repair of `info -sf` — nearest enclosing history, `ownerHist` —: the trees of sections 3 and 4 have no
+  nested histories, `sealedHist_flat`, `runInv_children`, so their statements are UNCHANGED; the general statement
+  `infoSingleFile_sfLines` is restated with `ownerHist`, its former form is `infoSingleFile_sfLines_root` / `_flat`.)
   3. `info_sf_after_seal`           C03e2e's setting: `info -sf p` on the sealed tree = one line
                                     `(1, f, env.H f content, "original")` per DISTINCT requested format `f`, in
                                     strictly ascending format-name order (`fmtList`); `info_sf_after_seal_count`,
@@ -237,6 +240,11 @@ section afterSeal
 open MhlProps.C03e2e
 variable {env : Env} {rn : String} {cs : List Node} {o : CreateOpts}
 
+/-- the history of a tree sealed once (C03e2e: a tree WITHOUT any `ascmhl` folder, sealed by one folder-mode `create`)
+has no nested histories; so every path is owned by the root history and the theorems of this section keep their
+statements after the repair of `info -sf` -/
+theorem sealedHist_flat (w : Written) : (sealedHist w).children = [] := rfl
+
 /-- 3. `info_sf_after_seal`.  In the setting of C03e2e (a tree without history, sealed once by a folder-mode `create`
 with formats `o.formats`), for every file `p` the run saw (at the top level or in a sub-folder), `info -sf p` on the
 sealed tree succeeds and prints exactly one line per DISTINCT requested format:
@@ -255,7 +263,7 @@ theorem info_sf_after_seal (hS : Setting env rn cs o) (p : RelPath)
   obtain ⟨-, -, -, -, -, -, hsg⟩ := written_facts hS w hw
   obtain ⟨r, hfind, -, -, hents⟩ := hsg.find_file hS.namesOk p hp
   refine ⟨?_, ?_, fmtList_sorted _, mem_fmtList _, fmtList_ne_nil _ hS.formats⟩
-  · rw [infoSingleFile_lines _ _ p hl (sealedHist_gens_ne w)]
+  · rw [infoSingleFile_lines_flat _ _ p hl (sealedHist_gens_ne w) (sealedHist_flat w)]
     simp only [sealedHist, Hist.gens, List.flatMap_cons, List.flatMap_nil, List.append_nil, recordEntries, hfind,
       hents, origEntries_eq_map, List.map_map]
     rfl
@@ -283,7 +291,7 @@ theorem info_sf_after_seal_unseen (hS : Setting env rn cs o) (p : RelPath) (hpn 
   obtain ⟨w, -, hw, -⟩ := first_seal_core hS
   obtain ⟨hl, -⟩ := sealed_tree_loads hS w hw
   obtain ⟨-, -, -, -, -, -, hsg⟩ := written_facts hS w hw
-  rw [infoSingleFile_lines _ _ p hl (sealedHist_gens_ne w)]
+  rw [infoSingleFile_lines_flat _ _ p hl (sealedHist_gens_ne w) (sealedHist_flat w)]
   simp [sealedHist, Hist.gens, recordEntries, hsg.find_unseen hS.namesOk p hpn hpok hp]
 
 end afterSeal
@@ -471,9 +479,30 @@ theorem run_finv (env : Env) (hrn : '\n' ∉ env.rootName.toList) (p : RelPath) 
     rw [run_cons, writes]
     rwa [Nat.add_assoc] at this
 
+/-- CHANGED (the repaired `info -sf`): the lines are those of the NEAREST ENCLOSING history `ownerHist h f` under the
+path relative to its root (formerly `sfLines h.gens (posix f)`: the root history, the path itself).  The former
+statement holds when no nested history lies on the path: `infoSingleFile_sfLines_root`, `infoSingleFile_sfLines_flat`
+below; the trees of a C06seq run have no nested histories (`RunInv.flat`, `runInv_children`). -/
 theorem infoSingleFile_sfLines (t : Node) (h : Hist) (f : RelPath) (hl : loadHistory t = .ok h) (hg : h.gens ≠ []) :
-    infoSingleFile t f = .ok (sfLines h.gens (posix f)) :=
-  infoSingleFile_lines t h f hl hg
+    infoSingleFile t f = .ok (sfLines (ownerHist h f).gens (posix (f.drop (ownerHist h f).root.length))) :=
+  infoSingleFile_nearest t h f hl hg
+
+/-- the former statement of `infoSingleFile_sfLines`, for a path that no nested history lies on -/
+theorem infoSingleFile_sfLines_root (t : Node) (h : Hist) (f : RelPath) (hl : loadHistory t = .ok h) (hg : h.gens ≠ [])
+    (ho : ownerHist h f = h) : infoSingleFile t f = .ok (sfLines h.gens (posix f)) :=
+  infoSingleFile_lines_root t h f hl hg ho
+
+/-- … in particular for a history without nested histories -/
+theorem infoSingleFile_sfLines_flat (t : Node) (h : Hist) (f : RelPath) (hl : loadHistory t = .ok h) (hg : h.gens ≠ [])
+    (hc : h.children = []) : infoSingleFile t f = .ok (sfLines h.gens (posix f)) :=
+  infoSingleFile_lines_flat t h f hl hg hc
+
+/-- the trees of a C06seq run (`run`, `stepTree` from a folder without nested `ascmhl` folders) have NO nested
+histories at any point: the loaded history has no children, so it owns every path.  Hence `info_sf_after_run`,
+`info_sf_unaltered_step` and `info_sf_edited_step` below keep their statements unchanged after the repair. -/
+theorem runInv_children {t : Node} {n : Nat} {gs : List Generation} (hR : RunInv t n gs) (h : Hist)
+    (hl : loadHistory t = .ok h) : h.children = [] ∧ ∀ p, ownerHist h p = h :=
+  ⟨(loadHistory_flat t hR.flat h hl).1, fun p => ownerHist_flat h p (loadHistory_flat t hR.flat h hl).1⟩
 
 /-- 4. `info_sf_after_run`.  A run from a folder without history whose steps are all folder-mode `create`s (no `-sf`,
 no `-dr`, at least one format; any media edits, any ignore options, with or without directory hashes, runs that end
@@ -517,7 +546,7 @@ theorem info_sf_after_run (env : Env) (hrn : '\n' ∉ env.rootName.toList) (t : 
       simp at this
       omega
     obtain ⟨a, b, d, e⟩ := sfLines_unaltered hP _ h1
-    refine ⟨_, infoSingleFile_sfLines _ h p hl hne, a, b, d, ?_, e⟩
+    refine ⟨_, infoSingleFile_sfLines_flat _ h p hl hne (runInv_children hR h hl).1, a, b, d, ?_, e⟩
     intro ℓ hℓ hfail
     rcases e ℓ hℓ with ⟨h2, -⟩ | ⟨h2, -⟩ <;> rw [h2] at hfail <;> exact absurd hfail (by decide)
 
@@ -546,7 +575,7 @@ theorem info_sf_unaltered_step (env : Env) (hrn : '\n' ∉ env.rootName.toList) 
     intro lines₀ h0
     by_cases hg : h₁.gens = []
     · rw [(info_no_history t h₁ p hl₁ hg).2] at h0; cases h0
-    · rw [infoSingleFile_sfLines t h₁ p hl₁ hg] at h0; cases h0; rfl
+    · rw [infoSingleFile_sfLines_flat t h₁ p hl₁ hg (runInv_children hR h₁ hl₁).1] at h0; cases h0; rfl
   obtain ⟨⟨hE, hlE, hEg⟩, hcase⟩ := step_gens env hrn t n gs hR st hst.ok h₁ hl₁
   obtain ⟨gs₂, hR₂⟩ : ∃ m gs₂, RunInv (stepTree env t st) m gs₂ := by
     rcases hcase with ⟨-, ⟨g', h'⟩, -⟩ | ⟨-, -, ⟨g', h'⟩, -⟩
@@ -557,7 +586,7 @@ theorem info_sf_unaltered_step (env : Env) (hrn : '\n' ∉ env.rootName.toList) 
   have hlines₂ : lines = sfLines h₂.gens (posix p) := by
     by_cases hg : h₂.gens = []
     · rw [(info_no_history _ h₂ p hl₂ hg).2] at hlines; cases hlines
-    · rw [infoSingleFile_sfLines _ h₂ p hl₂ hg] at hlines; cases hlines; rfl
+    · rw [infoSingleFile_sfLines_flat _ h₂ p hl₂ hg (runInv_children hR₂ h₂ hl₂).1] at hlines; cases hlines; rfl
   rcases hcase with ⟨h0, -, hg₂⟩ | ⟨w, hw, -, hg₂⟩
   · refine ⟨sfLines h₁.gens (posix p), [], ?_, hbefore, ?_, ?_⟩
     · rw [hlines₂, hg₂ h₂ hl₂, List.append_nil]
@@ -640,7 +669,7 @@ theorem info_sf_edited_step (env : Env) (hrn : '\n' ∉ env.rootName.toList) (p 
     intro lines₀ h0
     by_cases hg : h₁.gens = []
     · rw [(info_no_history t h₁ p hl₁ hg).2] at h0; cases h0
-    · rw [infoSingleFile_sfLines t h₁ p hl₁ hg] at h0; cases h0; rfl
+    · rw [infoSingleFile_sfLines_flat t h₁ p hl₁ hg (runInv_children hR h₁ hl₁).1] at h0; cases h0; rfl
   obtain ⟨⟨hE, hlE, hEg⟩, hcase⟩ := step_gens env hrn t n gs hR st hst.ok h₁ hl₁
   -- the history after the step
   obtain ⟨gs₂, hR₂⟩ : ∃ m gs₂, RunInv (stepTree env t st) m gs₂ := by
@@ -652,7 +681,7 @@ theorem info_sf_edited_step (env : Env) (hrn : '\n' ∉ env.rootName.toList) (p 
   have hlines₂ : lines = sfLines h₂.gens (posix p) := by
     by_cases hg : h₂.gens = []
     · rw [(info_no_history _ h₂ p hl₂ hg).2] at hlines; cases hlines
-    · rw [infoSingleFile_sfLines _ h₂ p hl₂ hg] at hlines; cases hlines; rfl
+    · rw [infoSingleFile_sfLines_flat _ h₂ p hl₂ hg (runInv_children hR₂ h₂ hl₂).1] at hlines; cases hlines; rfl
   rcases hcase with ⟨h0, -, hg₂⟩ | ⟨w, hw, -, hg₂⟩
   · -- nothing written: no new lines
     refine ⟨sfLines h₁.gens (posix p), [], ?_, hbefore, hold, ?_, ?_, ?_⟩
@@ -728,9 +757,11 @@ of THAT folder and raise `NoMHLHistoryException` (30) when it has no generation.
 the tool either: a folder that only has nested histories below it gives 30, in the tool and in the model
 (`info_only_nested`).  The UPWARD search of `info -sf FILE` without a root path (walk up from the file's folder to
 the nearest folder that has an `ascmhl` folder, and use that as root; 30 if there is none) is NOT part of the
-model; it corresponds to calling `infoSingleFile` on the sub-tree at that folder with the path relative to it (last
-example of this section).  In both, a file that belongs to a nested history is looked up in the ROOT history of
-the folder used as root, never routed to the nested one. -/
+model; it corresponds to calling `infoSingleFile` on the sub-tree at that folder with the path relative to it (an
+example of this section).  Once the root history has a generation, a file that belongs to a nested history is
+routed to the nearest enclosing nested history (`find_history_for_path` in the tool, `ownerHist` in the model; before
+the repair of the tool it was looked up in the ROOT history only); the no-history test itself is made on the ROOT
+history alone, as before. -/
 
 /-- 5. `info_no_history_everywhere`.  Whenever the history of the root folder loads and has no generation, `info`
 and `info -sf` (for every file path) end with `NoMHLHistoryException`, exit code 30 — whatever nested histories the
@@ -970,9 +1001,34 @@ example : big1.hist = none ∧ loadHistory big1 = .ok (loadD big1) ∧
 line -/
 example : infoSingleFile sealedA ["x.mov"] = .ok [(1, "md5", "md5:3", "original")] := by decide +kernel
 
-/-- with a root history too (`big3`), a file of the nested history is looked up in the ROOT history only: `A/x.mov`
-is recorded in the nested history `A`, the root history has no record for it -/
-example : infoSingleFile big3 ["A", "x.mov"] = .ok [] := by decide +kernel
+/-- with a root history too (`big3`), a file of the nested history is routed to the NESTED history (the repaired
+`info -sf`): `A/x.mov` is recorded in the nested history `A` as `x.mov`, in all three generations of `A`; the root
+history has no record for it (before the repair this printed nothing) -/
+example : infoSingleFile big3 ["A", "x.mov"] =
+    .ok [(1, "md5", "md5:3", "original"),
+         (2, "md5", "md5:3", "verified"), (2, "xxh64", "xxh64:3", "verified"),
+         (3, "md5", "md5:3", "verified"), (3, "sha1", "sha1:3", "verified")] := by decide +kernel
+
+/-- a file of the outer folder is still looked up in the root history (two generations) -/
+example : infoSingleFile big3 ["B", "z"] =
+    .ok [(1, "md5", "md5:0", "original"), (1, "xxh64", "xxh64:0", "original"),
+         (2, "md5", "md5:0", "verified"), (2, "sha1", "sha1:0", "verified")] := by decide +kernel
+
+/-- three levels (`c3`): a file below `A/sub` gets the four generations of the DEEPEST history `A/sub`, a file of `A`
+the three generations of `A` -/
+example : infoSingleFile c3 ["A", "sub", "s"] =
+    .ok [(1, "sha1", "sha1:2", "original"),
+         (2, "md5", "md5:2", "verified"), (2, "sha1", "sha1:2", "verified"),
+         (3, "md5", "md5:2", "verified"), (3, "xxh64", "xxh64:2", "verified"),
+         (4, "sha1", "sha1:2", "verified")] ∧
+    (ownerHist (loadD c3) ["A", "sub", "s"]).root = ["A", "sub"] ∧
+    (ownerHist (loadD c3) ["A", "x.mov"]).root = ["A"] := by decide +kernel
+
+/-- `infoSingleFile_sfLines` applied on `big3`: the lines are `sfLines` of the owner's generations -/
+example : infoSingleFile big3 ["A", "x.mov"] =
+    .ok (sfLines (ownerHist (loadD big3) ["A", "x.mov"]).gens
+      (posix ((["A", "x.mov"] : RelPath).drop (ownerHist (loadD big3) ["A", "x.mov"]).root.length))) :=
+  infoSingleFile_sfLines big3 (loadD big3) ["A", "x.mov"] load3 hyps3.1
 
 /-- no history at the root and a nested history whose chain file is gone: the nested fault wins over 30 -/
 example : info (.dir "root" [.dir "A" [] (some { chainPresent := false })] none) = .error errNoChain ∧
@@ -997,6 +1053,15 @@ end MhlProps.C19seq
 #print axioms MhlProps.C19seq.step_finv
 #print axioms MhlProps.C19seq.run_finv
 #print axioms MhlProps.C19seq.info_sf_after_run
+#print axioms MhlProps.C19seq.infoSingleFile_sfLines
+#print axioms MhlProps.C19seq.infoSingleFile_sfLines_flat
+#print axioms MhlProps.C19seq.runInv_children
+#print axioms MhlProps.C19.infoSingleFile_nearest_spec
+#print axioms MhlProps.C19.ownerHist_deepest
+#print axioms MhlProps.C19.ownerHist_root_prefix
+#print axioms MhlProps.C19.ownerHist_mem
+#print axioms MhlProps.C19.loadHistory_WF
+#print axioms MhlProps.C19.loadHistory_WF_needs_names
 #print axioms MhlProps.C19seq.info_sf_unaltered_step
 #print axioms MhlProps.C19seq.info_sf_edited_step
 #print axioms MhlProps.C19seq.info_sf_needs_noRename
